@@ -1981,8 +1981,17 @@ impl Gen {
     pub fn fault_only(&mut self, kind: &FaultKind) -> String {
         let saved = self.sym.clone();
         let mut gi = GenInput::default();
-        let s = self.fault_statement(kind, &mut gi);
+        let mut s = self.fault_statement(kind, &mut gi);
         self.sym = saved;
+        if self.cfg.trivia {
+            // Unicode spellings also inside the faulty statement: diagnostics then have to quote
+            // and underline multi-byte source text
+            for (from, to) in [(" / ", " ÷ "), (" * ", " × "), (" -> ", " → "), (" != ", " ≠ "), (" + ", " + ")] {
+                if s.contains(from) && self.rng.chance(0.5) {
+                    s = s.replacen(from, to, 1);
+                }
+            }
+        }
         s
     }
 
